@@ -772,3 +772,60 @@ def reachable_correlated(fn, starts, avoid, decided):
                 seen.add(s)
                 dq.append(s)
     return seen
+
+
+def park_helpers(F):
+    """functions of steel_vm::vm that wait by parking in a loop (derived, not named): {name: Fn}"""
+    out = {}
+    for n, fn in F.fns.items():
+        if not n.startswith("steel::steel_vm::vm::") or fn.d["kind"] == "Closure":
+            continue
+        for i, b in fn.calls():
+            if re.search(r"thread::(functions::)?park$", b["callee"]) and i in fn.reachable_from(fn.succ(i)):
+                out[n] = fn
+                break
+    return out
+
+
+def leaves_wait_on_interrupt(F, fn, _depth=0):
+    """True iff the parking wait of fn — its own loop, or the loop of a park helper it calls — has a ThreadState switch whose
+    Interrupted arm reaches a return without parking; when that test is guarded by a bool parameter of the helper, the call
+    must pass the constant that enables it"""
+    parks = fn.call_blocks(r"std::thread::(functions::)?park$")
+    if parks:
+        sws = enum_switches(fn, "ThreadState")
+        for sw in sws:
+            m = arm_map(fn, sw)
+            it = m.get("Interrupted")
+            if it is None or it == m.get("_"):
+                continue
+            if set(fn.returns()) & fn.reachable_from([it], avoid=set(parks) | {sw}):
+                return True, sw
+        return False, None
+    if _depth >= 1:
+        return False, None
+    helpers = park_helpers(F)
+    for i, b in fn.calls():
+        h = helpers.get(b["callee"])
+        if h is None or h is fn:
+            continue
+        ok, sw = leaves_wait_on_interrupt(F, h, _depth + 1)
+        if not ok:
+            return False, None
+        # a bool parameter guarding the test must be passed as the enabling constant
+        dom = h.dominators()
+        for g in dom.get(sw, ()):
+            blk = h.blocks[g]
+            if blk["k"] == "switch" and blk.get("on") == "bool":
+                srcs = alias_sources(h, blk["place"].strip("()*"))
+                params = [x for x in srcs if re.match(r"^_\d+$", x) and 1 <= int(x[1:]) <= (h.d.get("nargs") or 0)]
+                if not params:
+                    continue
+                k = int(params[0][1:]) - 1
+                false_t = [t for v, t in blk["targets"] if v == "0"]
+                needs_true = sw not in h.reachable_from(false_t, avoid={g}) if false_t else True
+                arg = b["args"][k] if k < len(b["args"]) else None
+                if arg != ("const:1" if needs_true else "const:0"):
+                    return False, None
+        return True, None
+    return False, None
